@@ -166,7 +166,18 @@ func runAmmo(kv map[string]string, data []byte) string {
 		})
 		return res.String()
 	}
-	conf := config.Config{Decoder: config.DecoderType(format), File: name, Passes: 1, Preload: kv["pre"] == "1", ContinueOnError: kv["coe"] == "1"}
+	// passes=0 (unlimited) is run with a limit: the file is read again and again until `limit` entries were delivered
+	hpasses, hlimit := uint(1), uint(0)
+	if kv["passes"] != "" {
+		n, _ := strconv.Atoi(kv["passes"])
+		hpasses = uint(n)
+		l, _ := strconv.Atoi(kv["limit"])
+		hlimit = uint(l)
+		if hpasses == 0 && hlimit == 0 {
+			return "BADINPUT"
+		}
+	}
+	conf := config.Config{Decoder: config.DecoderType(format), File: name, Passes: hpasses, Limit: hlimit, Preload: kv["pre"] == "1", ContinueOnError: kv["coe"] == "1"}
 	p, err := httpprovider.NewProvider(memFS, conf)
 	if err != nil {
 		return "n=0 e= end=ctor-" + errClass(err)
